@@ -449,7 +449,11 @@ func rewriteTag(orig, countryCode string, withLogin bool) string {
 	if withLogin {
 		auths := store.Store.GetAuthNames()
 		for _, name := range auths {
-			auth := store.Store.GetAuthHandler(name)
+			// The list includes logical names: resolve them too.
+			auth := store.Store.GetLogicalAuthHandler(name)
+			if auth == nil {
+				continue
+			}
 			if tag := auth.AsTag(orig); tag != "" {
 				return tag
 			}
